@@ -68,7 +68,9 @@ class Report:
 
     def finish(self):
         wall = time.time() - self.t0
-        os.makedirs(os.path.join(VERIF, "evidence"), exist_ok=True)
+        # evaluations against a patched scratch tree (tools/eval_mutant.sh) must not overwrite the committed evidence
+        evdir = os.environ.get("VERIF_EVIDENCE_DIR") or os.path.join(VERIF, "evidence")
+        os.makedirs(evdir, exist_ok=True)
         paths = []
         d = os.path.join(VERIF, "replays", self.prop)
         if os.path.isdir(d):
@@ -90,20 +92,21 @@ class Report:
         cov.update(self.extra)
         ev = {"property_id": self.prop, "tier": tier(), "seed": seed(), "level": self.level, "coverage": cov,
               "assumptions": self.assumptions, "wall_s": round(wall, 2), "violations": len(self.violations)}
-        with open(os.path.join(VERIF, "evidence", self.prop + ".json"), "w") as f:
+        with open(os.path.join(evdir, self.prop + ".json"), "w") as f:
             json.dump(ev, f, indent=1, default=str)
         for key, (n, what) in sorted(self.known_hits.items()):
             print("KNOWN-FINDING: property=%s %s: %s (x%d)" % (self.prop, key, what, n))
-        if self.harness_errors:
-            for m in self.harness_errors[:20]:
-                print("HARNESS-ERROR property=%s %s" % (self.prop, m))
-            print("property=%s harness error (exit %d): the machinery, not the code under test, needs attention"
-                  % (self.prop, EXIT_HARNESS))
-            return EXIT_HARNESS
+        for m in self.harness_errors[:20]:
+            print("HARNESS-ERROR property=%s %s" % (self.prop, m))
         if self.violations:
+            # every listed violation was replayed against the real code; harness errors next to them are reported above
             for (key, what, _), path in zip(self.violations, paths):
                 print("VIOLATION property=%s replay=%s" % (self.prop, path))
                 print("  detail: %s: %s" % (key, what))
             return EXIT_VIOLATION
+        if self.harness_errors:
+            print("property=%s harness error (exit %d): the machinery, not the code under test, needs attention"
+                  % (self.prop, EXIT_HARNESS))
+            return EXIT_HARNESS
         print("OK property=%s tier=%s wall=%.1fs" % (self.prop, tier(), wall))
         return EXIT_OK
